@@ -108,6 +108,8 @@ func main() {
 				fmt.Println(k)
 			}
 		}
+	case "deadblocks":
+		cmdDeadBlocks(os.Args[2:])
 	case "sweep":
 		cmdSweep(os.Args[2:])
 	case "maploops":
